@@ -14,10 +14,10 @@ KEEP = {"Header", "Grammar", "Result", "Align"}
 
 
 def model_check(ctx, quick):
+    """StateAlignImpl: the transcribed backtrace + propagate on every best path of the constrained second pass;
+    the pre-fix variant (first state without a score) must violate TotalIsPathScore (negative control)."""
     rep = ctx.report
     cfg = "StateAlign_small.cfg" if quick else "StateAlign_big.cfg"
-    if not os.path.exists(os.path.join(SPEC, cfg)):
-        return
     r = tlc.run("MC_StateAlign.tla", cfg, SPEC, workers=16, timeout=2400, coverage=True, heap="12g")
     if r.violated:
         raise tlc.ModelError("StateAlignImpl violates %s in %s:\n%s" % (r.violated, cfg, r.out[-2500:]))
@@ -25,6 +25,10 @@ def model_check(ctx, quick):
         if r.coverage.get(act, (0, 0))[0] == 0:
             raise tlc.ModelError("vacuous: action %s never taken in %s" % (act, cfg))
     rep.add_tlc("MC_StateAlign.tla/" + cfg, r)
+    r = tlc.run("MC_StateAlign.tla", "StateAlign_aswas.cfg", SPEC, workers=4, timeout=600)
+    if r.violated != "TotalIsPathScore":
+        raise tlc.ModelError("negative control failed: the pre-fix backtrace should violate TotalIsPathScore, got %s" % r.violated)
+    rep.notes["negative_control"] = "StateAlign_aswas.cfg (first state keeps score 0) violates TotalIsPathScore as expected"
 
 
 def classify(f):
